@@ -27,7 +27,7 @@ ANCHORS = [
     "acnportal.acnsim.network.charging_network:ChargingNetwork.update_pilots",
 ]
 REQUIRED = ["runs_judged", "schedules_submitted", "empty_schedules", "schedules_beyond_horizon", "schedule_in_last_period_beyond_horizon",
-            "set_pilot_calls_checked", "held_pilots_checked", "twin_runs", "malformed_unknown_station_rejected", "malformed_unequal_rejected",
+            "set_pilot_calls_checked", "held_pilots_checked", "twin_runs", "malformed_unknown_station_rejected", "malformed_unequal_rejected", "resumed_after_rejection",
             "infeasible_schedule_warnings", "probe_ev_cells_checked", "regime:mr-None", "regime:mr-1", "regime:mr-k"]
 BUDGET_S = {"quick": 240, "thorough": 3000}
 
@@ -78,7 +78,8 @@ def _make_scheduler(d, mal, typed, snap_box):
     class Mal(Scripted):
         def schedule(self, active_sessions):
             t = self.interface.current_time
-            if mal is not None and mal["at"] == t:
+            if mal is not None and mal["at"] == t and not snap_box.get("fired"):
+                snap_box["fired"] = True
                 ids = sorted(s["id"] for s in d["network"]["stations"])
                 if mal["kind"] == "unknown_station" or len(ids) < 2:
                     sch = {ids[0]: [0, 0], "no-such-station": [0, 0]}
@@ -113,12 +114,13 @@ def _overlay(ids, subs, width):
 def _run(d, mal, typed):
     box = {}
     sch = _make_scheduler(d, mal, typed, box)
-    sim, evs = build.build_sim(d, scheduler=sch)
+    sim, evs = build.build_sim(d, scheduler=sch, store_schedule_history=mal is not None)
     evses = dict(build.LAST_EVSES)
 
     def take():
+        hist = None if sim.schedule_history is None else sorted(sim.schedule_history)
         return (sim.pilot_signals.copy(), sim.charging_rates.copy(), {e.session_id: e.energy_delivered for e in evs},
-                sim.iteration, {k: v.current_pilot for k, v in evses.items()}, sim.peak)
+                sim.iteration, {k: v.current_pilot for k, v in evses.items()}, sim.peak, hist)
 
     box["take"] = take
     held = box["held"] = []  # (period, {station: pilot the EVSE holds at the end of the period}), occupied or vacant alike
@@ -160,13 +162,31 @@ def run_case(case, obs):
             return
         if not ok_type:
             obs.violate("malformed_schedule_wrong_error", f"{kind}: raised {type(exc).__name__}: {exc}", **wit)
-        p, c, en, it, cp, pk = box["snap"]
+        p, c, en, it, cp, pk, hk = box["snap"]
         now = box["take"]()
-        if not (np.array_equal(p, now[0]) and np.array_equal(c, now[1]) and en == now[2] and it == now[3] and cp == now[4] and pk == now[5]):
-            what = [n for n, a, b in zip(["pilot_signals", "charging_rates", "energies", "iteration", "EVSE pilots", "peak"], box["snap"], now)
+        if not (np.array_equal(p, now[0]) and np.array_equal(c, now[1]) and en == now[2] and it == now[3] and cp == now[4] and pk == now[5]
+                and hk == now[6]):
+            what = [n for n, a, b in zip(["pilot_signals", "charging_rates", "energies", "iteration", "EVSE pilots", "peak", "schedule_history"],
+                                         box["snap"], now)
                     if not (np.array_equal(a, b) if isinstance(a, np.ndarray) else a == b)]
             obs.violate("rejected_schedule_changed_state", f"{kind} schedule refused but {what} changed", **wit)
         obs.ev("malformed_" + kind + "_rejected")
+        # nothing changed, so the period is still to be scheduled: calling run() again asks the scheduler again in that very
+        # period (it now answers with a well-formed schedule) and the run completes; judged below like any other run
+        probe.attach()
+        try:
+            exc2 = probe.run()
+        finally:
+            probe.detach()
+        obs.ev("resumed_after_rejection")
+        if exc2 is not None:
+            obs.violate("run_raised", f"after a rejected schedule, run() again: {type(exc2).__name__}: {exc2}", **wit)
+            return
+        asked = [t for t, _ in subs]
+        tb = box["t"]
+        if asked.count(tb) < 2:
+            obs.violate("rejected_schedule_consumed_the_period", f"{kind} schedule refused in period {tb}; on the next run() the scheduler was "
+                        f"not asked again for that period (asked in {asked[:12]})", **wit)
         T = sim.iteration
     else:
         if exc is not None:
